@@ -416,6 +416,8 @@ public:
                 int expectSeq = 0;
                 bool peerSawClose = false, peerRejected = false;
                 const int rejectAt = (fault == 1 || fault == 5) && nBlocks > 0 ? faultAt % nBlocks : -1;   // the receiver answers one block with an error
+                const int ackFaultAt = nBlocks > 0 ? faultAt % nBlocks : -1;
+                QByteArray lastAckedId;
                 for (int guard = 0; guard < 80000; ++guard) {
                     if (toPeer.isEmpty()) {
                         w.pump(nullptr);
@@ -448,7 +450,28 @@ public:
                             peerSend(head + " type='error'><error type='cancel'><item-not-found xmlns='urn:ietf:params:xml:ns:xmpp-stanzas'/></error></iq>");
                         } else {
                             got += QByteArray::fromBase64(pl.text().toLatin1());
+                            if (expectSeq == ackFaultAt && (fault == 7 || fault == 11 || fault == 6)) {
+                                // somebody else acknowledges the block (same id) before the receiver does: the sender must wait
+                                faultFired = true;
+                                res.faults[QStringLiteral("third_party_acknowledges_block")]++;
+                                peerSend("<iq id='" + id + "' from='" + wrongSender + "' to='" + to + "' type='result'/>");
+                                if (!toPeer.isEmpty()) {
+                                    res.violations.append(Violation { QStringLiteral("sender_advanced_on_forged_ack"), QStringLiteral("C19:sender_advanced_on_an_acknowledgement_of_a_third_party"),
+                                                                      QStringLiteral("%1 acknowledged block %2; the sender went on without the receiver's acknowledgement").arg(QString::fromLatin1(wrongSender)).arg(expectSeq), 0 });
+                                }
+                            }
                             peerSend(head + " type='result'/>");
+                            if (expectSeq == ackFaultAt && fault == 2) {
+                                faultFired = true;
+                                res.faults[QStringLiteral("acknowledgement_duplicated")]++;
+                                peerSend(head + " type='result'/>");
+                            }
+                            if (expectSeq == ackFaultAt && fault == 3 && !lastAckedId.isEmpty()) {
+                                faultFired = true;
+                                res.faults[QStringLiteral("stale_acknowledgement_repeated")]++;
+                                peerSend("<iq id='" + lastAckedId + "' from='" + QByteArray(kPeer) + "' to='" + to + "' type='result'/>");
+                            }
+                            lastAckedId = id;
                         }
                         ++expectSeq;
                     } else if (pl.tagName() == QLatin1String("close")) {
@@ -466,8 +489,8 @@ public:
                     res.violations.append(Violation { QStringLiteral("fault_free_transfer_failed"), QStringLiteral("C19:fault_free_outgoing_transfer_did_not_succeed"),
                                                       QStringLiteral("no fault was injected, yet the sender ended with finished=%1 error=%2").arg(outFinished).arg(outError), 0 });
                 }
-                res.nontrivial = nBlocks >= 2;
-                res.caseKey = QStringLiteral("t1|%1|%2|%3|%4|%5").arg(block).arg(size).arg(announce).arg(rejectAt).arg(0);
+                res.nontrivial = nBlocks >= 2 || faultFired;
+                res.caseKey = QStringLiteral("t1|%1|%2|%3|%4|%5").arg(block).arg(size).arg(announce).arg(fault).arg(faultAt) + QStringLiteral("|%1").arg(plan.knob(QStringLiteral("who")));
             }
             for (const auto &v : std::as_const(res.violations)) {
                 tr.log(QStringLiteral("VIOLATION ") + v.signature);
